@@ -182,7 +182,9 @@ static void op_HsortInts(const jv *in, jout *out) {
 static void op_SeckeyRaw(const jv *in, jout *out) {
     unsigned char sk[32], t[32]; long op = jv_int(in, "op", 1); int ret = 0;
     jv_need(in, "key", sk, 32); if (jv_bytes(in, "t", t, 32) != 32) memset(t, 0, 32);
-    if (op == 1) ret = secp256k1_ec_seckey_tweak_add(CTX, sk, t);
+    /* "alias": 1 = the tweak argument IS the key buffer (the prototypes are not restrict-qualified and the header does not forbid it) */
+    if (jv_int(in, "alias", 0)) { ret = (op == 1) ? secp256k1_ec_seckey_tweak_add(CTX, sk, sk) : secp256k1_ec_seckey_tweak_mul(CTX, sk, sk); }
+    else if (op == 1) ret = secp256k1_ec_seckey_tweak_add(CTX, sk, t);
     else if (op == 2) ret = secp256k1_ec_seckey_tweak_mul(CTX, sk, t);
     else if (op == 3) ret = secp256k1_ec_seckey_negate(CTX, sk);
     else { secp256k1_keypair kp; ret = secp256k1_keypair_create(CTX, &kp, sk) && secp256k1_keypair_xonly_tweak_add(CTX, &kp, t); }
